@@ -770,6 +770,9 @@ def judge_events(flavour, rt_ms, events, groups, state):
         if resolves and pending is not None:
             pending = None
         att = [t for t, o in g if o == "connectAttempt"]
+        if not user_gone and (len(att) > 1 or (att and pending is not None)):
+            bad.append(("duplicate-reconnect", f"{ev}: {len(att)} new connect attempt(s) while "
+                        f"{'one is' if pending is not None else 'none was'} already under way: {g}"))
         if att:
             pending = att[-1]
         if ev == "stop" and stopped_at is None:
